@@ -472,6 +472,20 @@ class SpecEval:
         if name == 'typetag':
             ty = resolve_type(w, self.type_from_ast(args[0]), self.pkg)
             return SV(z3.IntVal(w.tag(ty)), 'int')
+        if name == 'oldarrays_same':
+            # oldarrays_same("T"): every backing array of element type T that existed at function entry still holds
+            # what it held then (what a frame without elems("T") means, usable as a loop invariant)
+            if self.old is None:
+                raise SpecError('oldarrays_same() needs old state')
+            ty = resolve_type(w, args[0][1], self.pkg)
+            key = ('el', ty)
+            r_ = z3.Const('oa_r', z3.IntSort())
+            new_, old_ = self.heap.get(key), self.old.get(key)
+            return SV(z3.ForAll([r_], z3.Implies(z3.And(r_ >= 1, r_ <= self.old.get(('alloc', 'arr'))), new_[r_] == old_[r_]), patterns=[new_[r_]]), 'bool')
+        if name == 'bitand':
+            # bitand(x, y): Go's x & y on non-negative operands - the same uninterpreted function the code translation uses
+            x_, y_ = self.ev(args[0]), self.ev(args[1])
+            return SV(w.uf('bits_and', z3.IntSort(), z3.IntSort(), z3.IntSort())(x_.t, y_.t), 'int')
         if name == 'parsesfloat':
             # parsesfloat(s): strconv.ParseFloat(s, 64) succeeds (the same uninterpreted predicate as the model of ParseFloat)
             v = self.ev(args[0])
